@@ -739,6 +739,7 @@ fn main() {
             instrs.clear();
         } else if line == "end" {
             writeln!(w, "case {}", name).unwrap();
+            w.flush().unwrap();
             match instrs.first() {
                 Some(Instr::Model(specs, c, lr)) => {
                     let (specs, c, lr) = (specs.clone(), c.clone(), *lr);
@@ -747,6 +748,7 @@ fn main() {
                 _ => run_plain(&instrs, &mut w),
             }
             writeln!(w, "end").unwrap();
+            w.flush().unwrap();
         } else {
             instrs.push(parse_instr(line));
         }
